@@ -151,21 +151,28 @@ pub fn run(args: &Args) -> ! {
     let scns = all(m);
     let mut run_n = 0;
     let mut complete = true;
-    for (scn, seq) in &scns {
-        if dl.expired() {
-            complete = false;
-            break;
+    // iterate the bound: every scenario with ≤1 preemption first, then with the full bound
+    let mut bound_completed = 0usize;
+    let bounds: Vec<usize> = if bound > 1 { vec![1, bound] } else { vec![bound] };
+    'b: for b in bounds {
+        run_n = 0;
+        for (scn, seq) in &scns {
+            if dl.expired() {
+                complete = false;
+                break 'b;
+            }
+            run_n += 1;
+            let judge = judge_for(seq.clone());
+            let st = explore_scenario(args, &dl, &acc, scn, b, args.tier.pick(20_000, 400_000), &judge, "editor-text-kept");
+            tot.add(&st);
         }
-        run_n += 1;
-        let judge = judge_for(seq.clone());
-        let st = explore_scenario(args, &dl, &acc, scn, bound, args.tier.pick(20_000, 400_000), &judge, "editor-text-kept");
-        tot.add(&st);
+        bound_completed = b;
     }
     rep.rule = format!(
         "{} scenarios ({run_n} run) = reload trigger {:?} at every position of every sequence of ≤{m} open/change/close notifications on an on-disk document × {{no disk change, one on-disk modification reported through didChangeWatchedFiles as a scheduler event}}; debounce timers and the client's configuration answer are scheduler events; every schedule with ≤{bound} preemptions modulo happens-before state matching; oracle at quiescence: open ⇒ open set and analysis hold the latest editor text; closed ⇒ analysis holds the disk content; the untouched file is still analysed. non-trivial = more than one decision",
         scns.len(),
         TRIGGERS
     );
-    rep.bounds = json!({"max_notifications": m, "preemption_bound": bound, "scenarios_total": scns.len(), "scenarios_run": run_n, "wall_cap_hit": dl.was_hit()});
+    rep.bounds = json!({"max_notifications": m, "preemption_bound": bound, "scenarios_total": scns.len(), "scenarios_run_at_last_bound": run_n, "preemption_bound_completed_for_all_scenarios": bound_completed, "wall_cap_hit": dl.was_hit()});
     finish_sched(args, rep, acc, &tot, complete)
 }
